@@ -66,7 +66,10 @@ def acq_configs(tier):
                 for tt in ("id", "bc"):
                     for ypat in (0, 1):
                         for n in ns:
-                            for sub in _subsets(n, tier == "thorough"):
+                            subs = _subsets(n, tier == "thorough")
+                            if tier == "quick" and n == 2:
+                                subs = subs + [[1, 2]]
+                            for sub in subs:
                                 for nf, npend in ((1, 0), (3, 1), (3, 2)):
                                     for P in Ps:
                                         out.append(dict(part="acq", d=d, ard=ard, mean=mean, tt=tt, ypat=ypat,
@@ -222,6 +225,15 @@ def _closed_form(prob, head, hname, x):
     return num.cei_closed_form(bests, means, std, jitter, smeans, sstd)
 
 
+def _cost_clamped(prob, hname, x):
+    try:
+        from syne_tune.optimizer.schedulers.searchers.bayesopt.models.meanstd_acqfunc_impl import MIN_COST
+    except ImportError:
+        MIN_COST = 1e-12
+    m = np.asarray(prob.secondary[hname].predict(x.reshape(1, -1))[0]["mean"], dtype=float)
+    return bool(np.any(m <= MIN_COST))
+
+
 def run_acq(task):
     from ..c09_models import AcqProblem
     cfg, seed = task["cfg"], task["seed"]
@@ -287,10 +299,16 @@ def run_acq(task):
                 continue
             # value consistency: batch row == single input == value returned with the gradient
             mag = max(abs(v_single), abs(v_g), abs(vals[0]))
-            if max(abs(v_single - v_g), abs(vals[0] - v_single)) > ACQ_VAL_RTOL * mag + 1e-300:
+            if abs(v_single - v_g) > ACQ_VAL_RTOL * mag + 1e-300:
                 viols.append(Violation(PROP, _acq_key("value-mismatch", cfg, hname),
-                                       f"{hname}: compute_acq {v_single!r} (batch {vals[0]!r}) vs "
-                                       f"compute_acq_with_gradient value {v_g!r} at {xin}", dict(rep, input=xin)))
+                                       f"{hname}: compute_acq {v_single!r} vs compute_acq_with_gradient value "
+                                       f"{v_g!r} at {xin}", dict(rep, input=xin)))
+            # row of a batch call vs single-input call: only needs to hold to the accuracy the difference
+            # quotients rely on (deep-tail EI values are ill-conditioned in the last bits of mean/std)
+            if abs(vals[0] - v_single) > 1e-6 * mag + 1e-300:
+                viols.append(Violation(PROP, _acq_key("value-mismatch-batch", cfg, hname),
+                                       f"{hname}: compute_acq on a batch gives {vals[0]!r} for the row that alone "
+                                       f"gives {v_single!r} at {xin}", dict(rep, input=xin)))
             # sign: expected improvement (and its cost-aware / constrained variants) never negative
             if hname != "LCB" and (np.max(vals) > 0.0 or v_g > 0.0):
                 viols.append(Violation(PROP, _acq_key("negative-improvement", cfg, hname),
@@ -336,7 +354,13 @@ def run_acq(task):
                 cov.sample({"part": "acq", "cfg": cfg, "head": hname, "input": xin, "coord": i, "grad": gi,
                             "fd": gfd, "fd_err": err, "scale": scale}, limit=6)
                 if diff > tol:
-                    viols.append(Violation(PROP, _acq_key("gradient", cfg, hname),
+                    clause = "gradient"
+                    if hname.startswith("EIpu") and _cost_clamped(prob, hname, x):
+                        # value is flat in the cost once max(cost, MIN_COST) clamps; the head gradient is not
+                        clause, hkey = "gradient-ignores-cost-clamp", "EIpu"
+                    else:
+                        hkey = hname
+                    viols.append(Violation(PROP, _acq_key(clause, cfg, hkey),
                                            f"{hname}: d/dx{i} returned {gi!r}, Richardson difference of compute_acq "
                                            f"{gfd!r} (+-{err:.1e}, scale {scale:.2e}) at input {xin} "
                                            f"[d={d} n={len(cfg['subset'])} mean={cfg['mean']} ard={cfg['ard']} "
@@ -396,7 +420,8 @@ def run(tier, seed):
         "comparisons with E > 1e-6*max(s,|g_fd|) are counted as unresolved, not compared",
         "AddJitterOp is wrapped harness-side (posterior_utils.AddJitterOp) only to DETECT jitter>0; such points are "
         "counted separately and not compared (dependence of jitter on inputs is ignored by design)",
-        "fantasy draws owned through random_seed of each GaussianProcessRegression (7919*VERIF_SEED+k); "
+        "fantasy draws owned through a fixed random_seed of each GaussianProcessRegression (independent of VERIF_SEED: "
+        "the lattice, hence the verdict, is the same for every seed); "
         "hyper-parameters are set, not fitted (update_params=False)",
         "Box-Cox predictors use normalize_targets=False and positive targets",
     ]
